@@ -657,3 +657,80 @@ func slowHandlers(t *testing.T, prop string) {
 		}
 	}
 }
+
+// ---------------------------------------------------------------------------
+// C16 (second clause): a background handler that never returns does not delay foreground delivery - not by a
+// deadlock (the real-time sessions see that) and not by any amount of time: in the bubble every wait the library
+// might insert shows as virtual time between a burst of events and the foreground delivery of its last one.
+// ---------------------------------------------------------------------------
+
+func TestC16NoDelay(t *testing.T) {
+	e := loadEnv(t, "C16")
+	defer e.finish(t)
+	total := e.pick(20, 200)
+	for idx := 0; idx < total; idx++ {
+		if !e.want("nodelay", idx) {
+			continue
+		}
+		r := rig.Rand(e.Seed, "C16nodelay", idx)
+		nEv := 20 + r.Intn(100)
+		nParked := 1 + r.Intn(4)
+		fgToo := r.Intn(2) == 0 // the parked handlers' verb has a foreground handler as well, or not
+		var elapsed time.Duration
+		var delivered int
+		hung := true
+		synctest.Test(t, func(t *testing.T) {
+			conn, ep := newClient(true, 0)
+			release := make(chan struct{})
+			for k := 0; k < nParked; k++ {
+				conn.HandleBG("EVT", client.HandlerFunc(func(_ *client.Conn, _ *client.Line) { <-release }))
+				conn.HandleBG("BGONLY", client.HandlerFunc(func(_ *client.Conn, _ *client.Line) { <-release }))
+			}
+			done := make(chan struct{})
+			count := 0
+			conn.HandleFunc("LAST", func(_ *client.Conn, _ *client.Line) { close(done) })
+			if fgToo {
+				conn.HandleFunc("EVT", func(_ *client.Conn, _ *client.Line) { count++ })
+			} else {
+				conn.HandleFunc("OTHER", func(_ *client.Conn, _ *client.Line) { count++ })
+			}
+			if err := conn.Connect(); err != nil {
+				e.R.Inconcl("connect: " + err.Error())
+				hung = false
+				return
+			}
+			mc := ep.Last()
+			synctest.Wait()
+			t0 := time.Now()
+			var b []byte
+			for k := 0; k < nEv; k++ {
+				b = append(b, fmt.Sprintf(":srv EVT %d\r\n:srv BGONLY %d\r\n:srv OTHER %d\r\n", k, k, k)...)
+			}
+			b = append(b, ":srv LAST\r\n"...)
+			mc.SendBytes(b)
+			<-done
+			elapsed = time.Since(t0)
+			delivered = count
+			close(release)
+			synctest.Wait()
+			conn.Close()
+			ep.Release()
+			hung = false
+		})
+		if hung {
+			e.R.Inconcl(fmt.Sprintf("nodelay:%d bubble did not finish", idx))
+			return
+		}
+		e.R.Eval(1)
+		if delivered != nEv {
+			e.R.Violate(rig.Violation{Sig: "c16|events-lost-next-to-parked-bg", Detail: fmt.Sprintf("%d events next to %d parked background handlers: the foreground handler ran %d times", nEv, nParked, delivered), Case: fmt.Sprintf("nodelay:%d", idx)})
+		}
+		if elapsed != 0 {
+			e.R.Violate(rig.Violation{Sig: "c16|foreground-delayed-by-parked-bg", Detail: fmt.Sprintf("with %d background handlers that never return, the last of %d events reached its foreground handler %v of virtual time after the burst was sent (nothing in the client has any reason to wait)", nParked, 3*nEv+1, elapsed), Case: fmt.Sprintf("nodelay:%d", idx)})
+		}
+		e.R.Class(fmt.Sprintf("nodelay|parked=%d|fg-on-same-verb=%v", nParked, fgToo))
+		if len(e.R.Violations) > 10 {
+			return
+		}
+	}
+}
